@@ -28,12 +28,13 @@ ASSUMPTIONS = [
     "a non-prefix-stable function of the string, so prefixes cannot soundly be merged into states",
 ]
 BOUNDS = {
-    "quick": "representative alphabet depth <= 3, core alphabet (14 symbols) depth 4; pairs of strings of length <= 2 over the core alphabet",
+    "quick": "representative alphabet depth <= 3, core alphabet (14 symbols) depth 4; pairs of strings of length <= 2 over the core alphabet; "
+             "the double-carrier-protein look-ahead case in every context (prefix <= 1 core symbol, suffix <= 2 representative symbols) and in pairs",
     "thorough": "representative alphabet depth <= 4, full alphabet depth <= 3, core alphabet depth 5; pairs of strings of length <= 2 over the "
-                "representative alphabet",
+                "representative alphabet; the double-carrier-protein look-ahead case with prefix <= 2 core symbols, suffix <= 2 representative symbols",
 }
 REQUIRED_BUCKETS = {t: ["modules:complete", "modules:trans-at", "modules:double-carrier", "modules:several", "pairs:merged",
-                        "pairs:merged-with-trailing-kr", "pairs:refused"] for t in ("quick", "thorough")}
+                        "pairs:merged-with-trailing-kr", "pairs:refused", "special:double-carrier-module-with-more-domains"] for t in ("quick", "thorough")}
 
 STARTERS = mi.CONDENSATIONS | mi.KETOSYNTHASES | mi.ADENYLATIONS | mi.ACYLTRANSFERASES | mi.ALTERNATE_STARTERS
 LOADERS = mi.ADENYLATIONS | mi.ACYLTRANSFERASES | {"CAL_domain"}
@@ -238,11 +239,48 @@ def check_pair(head_seq, tail_seq, strands, stats=None):
     return fails
 
 
+N_SPECIAL = 16
 ALPHABETS = {"reps": representative_alphabet, "full": full_alphabet, "core": lambda: CORE_PLUS}
+
+
+def double_transporter_strings(tier):
+    """the one look-ahead shortcut of the builder (two carrier proteins followed by a listed pair of domains), embedded in
+    every short context: prefix (<= 1 / <= 2 core symbols) + CP CP + each listed pair + suffix (<= 2 representative symbols)"""
+    carriers = [("ACP", None), ("PCP", None)]
+    reps = representative_alphabet()
+    prefixes = [[]] + [[a] for a in CORE]
+    if tier == "thorough":
+        prefixes += [[a, b] for a in CORE for b in CORE]
+    suffixes = [[]] + [[a] for a in reps] + [[a, b] for a in reps for b in reps]
+    for case in sorted(mi.DOUBLE_TRANSPORTER_CASES):
+        middle_tail = [(label, None) for label in case]
+        for cp1 in carriers:
+            for cp2 in carriers:
+                for prefix in prefixes:
+                    for suffix in suffixes:
+                        yield prefix + [cp1, cp2] + middle_tail + suffix
+
+
+def double_transporter_modules():
+    """short domain strings whose (last / first) module holds the double carrier protein case, for the pair merge"""
+    out = []
+    for case in sorted(mi.DOUBLE_TRANSPORTER_CASES):
+        body = [("PCP", None), ("PCP", None)] + [(label, None) for label in case]
+        out.append(body)
+        for extra in CORE_PLUS:
+            out.append([extra] + body)
+            out.append(body + [extra])
+        for loader in (("AMP-binding", None), ("PKS_AT", None)):
+            for extra in CORE_PLUS:
+                out.append([("Condensation_LCL", None), loader] + body + [extra])
+    return out
 
 
 def shards(tier):
     out = []
+    for chunk in range(N_SPECIAL):
+        out.append(["special", tier, chunk])
+    out.append(["special-pairs", tier])
     if tier == "quick":
         plans = [("reps", 3), ("core", 4)]
         pair_alpha = "core"
@@ -274,6 +312,37 @@ def run_shard(shard):
                     res.outcomes[(len(modules), sum(m.is_complete() for m in modules))] += 1
                 if fails or res.evals % 20011 == 1:
                     case = {"kind": "string", "seq": [list(x) for x in seq]}
+                    for clause, detail in fails:
+                        res.fail(case, clause, detail)
+                    res.sample(case)
+    elif shard[0] == "special":
+        _, tier, chunk = shard
+        for index, seq in enumerate(double_transporter_strings(tier)):
+            if index % N_SPECIAL != chunk:
+                continue
+            res.evals += 1
+            res.nontrivial += 1
+            fails, modules = check_string(seq, res.buckets)
+            if modules is not None:
+                res.outcomes[("special", len(modules), sum(m.is_complete() for m in modules))] += 1
+                if any(len([c for c in m.components if c.label in mi.CARRIER_PROTEINS]) > 1 and len(m.components) > 4 for m in modules):
+                    res.buckets["special:double-carrier-module-with-more-domains"] += 1
+            if fails or res.evals % 20011 == 1:
+                case = {"kind": "string", "seq": [list(x) for x in seq]}
+                for clause, detail in fails:
+                    res.fail(case, clause, detail)
+                res.sample(case)
+    elif shard[0] == "special-pairs":
+        specials = double_transporter_modules()
+        others = [[a] for a in CORE_PLUS] + [[a, b] for a in CORE_PLUS for b in CORE_PLUS]
+        for head, tail in itertools.chain(itertools.product(specials, others), itertools.product(others, specials)):
+            for strands in ((1, 1), (-1, -1), (1, -1)):
+                res.evals += 1
+                res.nontrivial += 1
+                fails = check_pair(head, tail, strands, res.buckets)
+                res.outcomes[("special-pair", strands[0] == strands[1], tuple(sorted({c for c, _ in fails})))] += 1
+                if fails or res.evals % 20011 == 1:
+                    case = {"kind": "pair", "head": [list(x) for x in head], "tail": [list(x) for x in tail], "strands": list(strands)}
                     for clause, detail in fails:
                         res.fail(case, clause, detail)
                     res.sample(case)
